@@ -253,8 +253,8 @@ def gen_conn_replay(pid, tier, seed):
 # specification -> implementation, write side: EVERY history of <= HistMax calls of Gen_Write
 # ---------------------------------------------------------------------------
 GW_RESP = {1: {"v": "1.1", "code": 204, "ops": []},
-           2: {"v": "1.0", "code": 200, "ops": [{"op": "body", "bytes": [65 + (i % 26) for i in range(300)]}]},
-           3: {"v": "1.1", "code": 404, "ops": [{"op": "depr"}, {"op": "body", "bytes": [97 + (i % 26) for i in range(3000)]}]}}
+           2: {"v": "1.0", "code": 200, "ops": [{"op": "body", "bytes": [65 + (i % 26) for i in range(120)]}]},
+           3: {"v": "1.1", "code": 404, "ops": [{"op": "depr"}, {"op": "body", "bytes": [97 + (i % 26) for i in range(700)]}]}}
 
 def gen_write_replay(pid, tier, seed):
     """TLC model-checks Gen_Write (the history of calls is a variable, so every distinct history of at most
@@ -263,7 +263,7 @@ def gen_write_replay(pid, tier, seed):
     of r' -> a real short write) and (a) compared call by call with TLC's predictions, (b) validated byte for
     byte by Trace_Conn."""
     binpath = V.build_harness("full")
-    depth, maxlen = (6, 2) if tier == "quick" else (7, 3)
+    depth, maxlen = (6, 2) if tier == "quick" else (7, 2)
     cfg = os.path.join(V.WORK, "genwrite-%s.cfg" % pid)
     txt = open(os.path.join(V.SPEC, "Gen_Write.cfg")).read()
     txt = re.sub(r"HistMax = \d+", "HistMax = %d" % depth, txt)
